@@ -315,7 +315,9 @@ theorem observed_fin {fl : Flavour} {op : Op} {o : Out} (hp : PInv op (.fin o)) 
     count v (backVals (op, normRes fl op (observe op o))) = count v o.back ∧
     count v (acceptedVals (op, normRes fl op (observe op o))) ≤ count v o.sent := by
   have hn : ∀ r : Res, (normRes fl op r).vals = r.vals ∧ (normRes fl op r).cnt = r.cnt := by
-    intro r; unfold normRes; split <;> simp
+    intro r; unfold normRes; split
+    · exact ⟨rfl, rfl⟩
+    · split <;> exact ⟨rfl, rfl⟩
   simp only [PInv] at hp
   cases op with
   | snd f h vs =>
